@@ -334,6 +334,60 @@ func stressRateLimit(c cfgT, r *result) {
 		r.kv(fmt.Sprintf("cap%d.requests", capacity), n)
 		r.kv(fmt.Sprintf("cap%d.admitted", capacity), ok.sum())
 	}
+	// fresh sources: every source is first seen by all goroutines at about the same moment, so that the
+	// creation of its bucket set is contended; burst 2, no refill: exactly 2 admitted per source whatever
+	// the interleaving (a second bucket set created for the same source would admit more: lost debits)
+	{
+		var ok, rej counters
+		next := http.HandlerFunc(func(w http.ResponseWriter, q *http.Request) { ok.inc(q.Header.Get("X-Src")); w.WriteHeader(200) })
+		eh := utils.ErrorHandlerFunc(func(w http.ResponseWriter, q *http.Request, err error) { rej.inc(q.Header.Get("X-Src")); w.WriteHeader(429) })
+		rates := ratelimit.NewRateSet()
+		must(rates.Add(time.Hour, 1, 2))
+		tl, err := ratelimit.New(next, ex, rates, ratelimit.ErrorHandler(eh))
+		must(err)
+		rounds := c.iters / 2
+		if rounds > 20000 {
+			rounds = 20000
+		}
+		var wg sync.WaitGroup
+		start := make([]chan struct{}, rounds/25+1)
+		for i := range start {
+			start[i] = make(chan struct{})
+		}
+		var arrived int64
+		for w := 0; w < workers; w++ {
+			wg.Add(1)
+			go func(w int) {
+				defer wg.Done()
+				for j := 0; j < rounds; j++ {
+					if j%25 == 0 { // cyclic barrier: all goroutines enter each block of 25 fresh sources together
+						if atomic.AddInt64(&arrived, 1) == int64(workers*(j/25+1)) {
+							close(start[j/25])
+						}
+						<-start[j/25]
+					}
+					tl.ServeHTTP(httptest.NewRecorder(), req(fmt.Sprintf("f%d", j)))
+				}
+			}(w)
+		}
+		wg.Wait()
+		n := int64(workers * rounds)
+		r.check(ok.sum()+rej.sum() == n, "fresh: requests=%d but admitted=%d + rejected=%d", n, ok.sum(), rej.sum())
+		wrong := 0
+		first := ""
+		for j := 0; j < rounds; j++ {
+			s := fmt.Sprintf("f%d", j)
+			if ok.get(s) != 2 {
+				wrong++
+				if first == "" {
+					first = fmt.Sprintf("source %s admitted %d", s, ok.get(s))
+				}
+			}
+		}
+		r.check(wrong == 0, "fresh: %d of %d sources did not admit exactly their burst of 2 (%s): token debits lost", wrong, rounds, first)
+		r.kv("fresh.requests", n)
+		r.kv("fresh.sources", rounds)
+	}
 }
 
 // ---------------------------------------------------------------- connection limiter
@@ -518,7 +572,7 @@ func stressStack(c cfgT, r *result) {
 	must(err)
 	h := http.HandlerFunc(func(w http.ResponseWriter, q *http.Request) {
 		backend.inc(q.URL.Host)
-		if q.URL.Host == "s2" && backend.get("s2")%4 == 0 {
+		if q.URL.Host != "s0" && backend.get(q.URL.Host)%4 != 0 {
 			w.WriteHeader(500)
 			return
 		}
@@ -539,7 +593,7 @@ func stressStack(c cfgT, r *result) {
 	must(rates.Add(time.Second, 1000000, 1000000))
 	tl, err := ratelimit.New(cl, ex, rates, ratelimit.ErrorHandler(utils.ErrorHandlerFunc(func(w http.ResponseWriter, _ *http.Request, _ error) { rejected.inc("rate"); w.WriteHeader(429) })))
 	must(err)
-	cb, err := cbreaker.New(tl, "ResponseCodeRatio(500, 600, 0, 600) > 0.6", cbreaker.CheckPeriod(time.Millisecond), cbreaker.FallbackDuration(time.Millisecond), cbreaker.RecoveryDuration(time.Millisecond),
+	cb, err := cbreaker.New(tl, "ResponseCodeRatio(500, 600, 0, 600) > 0.3", cbreaker.CheckPeriod(time.Millisecond), cbreaker.FallbackDuration(time.Millisecond), cbreaker.RecoveryDuration(time.Millisecond),
 		cbreaker.Fallback(http.HandlerFunc(func(w http.ResponseWriter, _ *http.Request) { tripped.inc("n"); w.WriteHeader(503) })))
 	must(err)
 	st, err := stream.New(cb)
